@@ -376,6 +376,22 @@ def check_property(prop, tier, seed, relock=False):
             checker_errors.append(f"axiom validation failed (the trusted base does not match the installed library): {v}")
     except Exception as e:
         checker_errors.append(f'axiom validation did not run: {e!r}')
+    # ---- run-time cross-check of the contracts on random concrete inputs (engine/axiom unsoundness detector; bounded)
+    sampling = []
+    try:
+        from pyvc.sampling import sample_contract
+        nsamp = 3 if tier == 'quick' else 60
+        for k in keys:
+            if any(a['function'] == k and a['status'] != 'discharged' for a in agg.values()):
+                continue        # something about this function is already reported
+            rs = sample_contract(k, reg.contracts[k], src, HERE, nsamp, seed)
+            if rs is None:
+                continue
+            sampling.append({'function': k, 'evaluations': rs['evaluations'], 'precondition_false': rs['precondition_false'], 'failures': len(rs['failures'])})
+            for fl in rs['failures'][:1]:
+                checker_errors.append(f"contract of {k} fails on a concrete input although its obligations are discharged (unsound engine or axiom): {fl['failed']} inputs={json.dumps(fl['inputs'])[:300]}")
+    except Exception as e:
+        checker_errors.append(f'contract sampling crashed: {e!r}')
     # ---- thorough tier: self-validation on scratch copies - the seeded changes of this property must be refuted, the harmless
     #      refactors that touch it must stay quiet (reported in the evidence; they never change the verdict about the real tree)
     selfcheck = None
@@ -421,6 +437,7 @@ def check_property(prop, tier, seed, relock=False):
             'bounded_standins': (extra_info or {}).get('bounded', []),
             'axiom_validation': (axiom_info or {}).get('checks'),
             'selfcheck': selfcheck,
+            'contract_sampling': sampling,
             'extra': {k: v for k, v in (extra_info or {}).items() if k not in ('violations', 'errors', 'undecided', 'bounded')},
             'source_root': src.root,
         },
